@@ -1,10 +1,23 @@
 import Fuota.Model.Recon
 import Fuota.Spec.Gf2
 import Fuota.Props.C02
+import Fuota.Lemmas.FaultRetry
 /-!
 # C18 — a failed storage operation does not advance the reconstruction (L0 part)
 
 A fault oracle `F : Nat → Bool` makes the storage call with that global index fail without effect on the store.
+
+Results (for the repaired store order `V.bitBeforeStore = false` unless said otherwise):
+
+* `handleBlock_congr`   — fault-free behaviour depends on the state only through `Equiv` (both store orders);
+* `fault_retry`         — one failed storage call outside `finish`, then redelivery of the same block, is
+                          indistinguishable (result, and state up to `Equiv`) from the fault-free delivery;
+* `fault_retry_seq`     — the same for any finite delivery sequence with any number of such episodes;
+* `pinned_order_loses_block`, `fault_in_finish_witness` — the two ways in which this fails: the pinned store order
+                          (bit before store), and a fault inside `finish`.
+
+The proofs live in `Fuota/Lemmas/FaultCongr.lean`, `FaultBlock.lean`, `FaultRetry.lean`; they never use that the
+oracle has a single fault, so `fault_retry_any_oracle` is stated for an arbitrary oracle.
 -/
 namespace Fuota.C18
 open Fuota.Recon Fuota.Gf2 Fuota.C02
@@ -18,35 +31,203 @@ def Equiv (a b : St) : Prop :=
 /-- exactly the call with global index `k` fails -/
 def faultAt (k : Nat) : Nat → Bool := fun c => c == k
 
-/- TO PROVE (statements fixed; for the repaired store order `V.bitBeforeStore = false`):
+/-- `Equiv` is the relation the lemma files call `Fault.Eqv` (the two definitions are the same term) -/
+theorem equiv_iff_eqv (a b : St) : Equiv a b ↔ Fault.Eqv a b := Iff.rfl
 
--- behaviour depends on the state only through `Equiv`
-theorem handleBlock_congr : Equiv a b → (handleBlock V noFault P vb nr a i d len).2 = (handleBlock V noFault P vb nr b i d len).2
-      ∧ Equiv (handleBlock V noFault P vb nr a i d len).1 (handleBlock V noFault P vb nr b i d len).1
+theorem Equiv.refl (a : St) : Equiv a a := Fault.Eqv.refl a
+theorem Equiv.symm {a b : St} (h : Equiv a b) : Equiv b a := Fault.Eqv.symm h
+theorem Equiv.trans {a b c : St} (h : Equiv a b) (g : Equiv b c) : Equiv a c := Fault.Eqv.trans h g
 
--- **fault_retry**: if exactly one storage call of `handleBlock s i d` fails and that call is not inside `finish`
--- (i.e. the faulted call returned an error from stage 1, strip, or the elimination loop), the call returns that
--- error, and delivering the same block again without fault gives the same result as the fault-free delivery and
--- an `Equiv` state. Formally, with s' := (handleBlock V (faultAt k) P vb nr s i d len).1 :
---   (handleBlock V (faultAt k) … s i d len).2 = Res.err e  →  ¬ InFinish  →
---   (handleBlock V noFault … s' i d len).2 = (handleBlock V noFault … s i d len).2 ∧
---   Equiv (handleBlock V noFault … s' i d len).1 (handleBlock V noFault … s i d len).1
--- where "not in finish" is expressed as: `isComplete (handleParity noFault s'' (P i) d).1 = false ∨ stage 1`
--- or more simply as the hypothesis `isComplete s' = false` (the faulted call left the session incomplete) —
--- choose the weakest hypothesis that makes the statement true and say why.
+/-! ## congruence -/
 
--- the pinned order loses the block: concrete witness, by `decide`
+/-- **Fault-free behaviour depends on the state only through `Equiv`.** Two states with the same scalars, bit sets
+    and store contents answer every delivery alike and end in states that again have the same contents (they may
+    differ in call log, call counter and in how the association lists represent the stores). Holds for both store
+    orders. -/
+theorem handleBlock_congr {a b : St} (V : Variant) (P : Nat → Nat) (vb nr i d len : Nat) (h : Equiv a b) :
+    (handleBlock V noFault P vb nr a i d len).2 = (handleBlock V noFault P vb nr b i d len).2 ∧
+    Equiv (handleBlock V noFault P vb nr a i d len).1 (handleBlock V noFault P vb nr b i d len).1 :=
+  Fault.handleBlock_congr V P vb nr i d len h
+
+/-! ## one fault, one redelivery -/
+
+/-- `fault_retry` for an arbitrary oracle (any number of scheduled faults: the first one that fires ends the
+    delivery). -/
+theorem fault_retry_any_oracle (V : Variant) (hV : V.bitBeforeStore = false) (F : Nat → Bool) (P : Nat → Nat)
+    (vb nr : Nat) (s : St) (i d len : Nat) (e : Err)
+    (herr : (handleBlock V F P vb nr s i d len).2 = Res.err e)
+    (hinc : isComplete (handleBlock V F P vb nr s i d len).1 = false) :
+    (handleBlock V noFault P vb nr (handleBlock V F P vb nr s i d len).1 i d len).2
+        = (handleBlock V noFault P vb nr s i d len).2 ∧
+    Equiv (handleBlock V noFault P vb nr (handleBlock V F P vb nr s i d len).1 i d len).1
+          (handleBlock V noFault P vb nr s i d len).1 :=
+  Fault.handleBlock_retry hV F P vb nr s i d len _ e (Prod.ext rfl herr) hinc
+
+/-- **A failed storage call outside `finish` is repaired by redelivering the block.**
+    For every state `s`, block `(i, d, len)`, matrix, capacities and fault index `k`: if the delivery during which
+    storage call number `k` fails answers an error and leaves the session incomplete, then delivering the same
+    block once more (no fault) gives the same answer as a delivery that never failed, and a state with the same
+    contents.
+
+    *Choice of the "not inside `finish`" hypothesis.* `hinc : isComplete s' = false` is used because
+    (1) it is a statement about the state the caller actually holds after the error (`is_complete()` is a public
+    query), not about a hypothetical fault-free run;
+    (2) it is what the proof needs and no more: an error that leaves the session incomplete cannot have come from
+    `finish`, because `finish` only runs when the session is complete and never changes `l`, `n`, `done`, `used`
+    (`Fault.tail2_err`, `Fault.finish_isComplete`); conversely an error raised inside `finish` always leaves
+    `isComplete s' = true` (`Fault.tail2_complete`), so on those the hypothesis is false, as it must be
+    (`fault_in_finish_witness`);
+    (3) it is necessary in general: if `isComplete s' = true` the redelivery answers `Done` without touching
+    storage (`C03.done_sticky`), which differs from the fault-free delivery whenever that one still had to store
+    something;
+    (4) the alternative "the fault-free `handleParity` from `s` does not complete the session" is strictly stronger
+    on reachable states: it also rules out a fault in `strip`/the elimination loop of the block that *would* have
+    completed the session, a case that is perfectly recoverable and is covered here (second `example` below). -/
+theorem fault_retry (V : Variant) (hV : V.bitBeforeStore = false) (P : Nat → Nat) (vb nr : Nat)
+    (s : St) (i d len k : Nat) (e : Err)
+    (herr : (handleBlock V (faultAt k) P vb nr s i d len).2 = Res.err e)
+    (hinc : isComplete (handleBlock V (faultAt k) P vb nr s i d len).1 = false) :
+    (handleBlock V noFault P vb nr (handleBlock V (faultAt k) P vb nr s i d len).1 i d len).2
+        = (handleBlock V noFault P vb nr s i d len).2 ∧
+    Equiv (handleBlock V noFault P vb nr (handleBlock V (faultAt k) P vb nr s i d len).1 i d len).1
+          (handleBlock V noFault P vb nr s i d len).1 :=
+  fault_retry_any_oracle V hV (faultAt k) P vb nr s i d len e herr hinc
+
+/-- non-vacuity 1 (stage 1): fresh session of two blocks, the store of data block 0 (storage call 0) fails -/
+example :
+    let V : Variant := { bitBeforeStore := false }
+    let a := handleBlock V (faultAt 0) (fun m => 2 ^ m) 8 8 { n := 2, bs := 1 } 0 7 1
+    a.2 = Res.err Err.data ∧ isComplete a.1 = false := by decide
+
+/-- non-vacuity 2 (the delicate case, and a case the stronger hypothesis would exclude): `n = 2`, parity rows
+    `P 2 = 01`, `P 3 = 10`; block 2 handled; during block 3 `pStore 1 6` (call 2) succeeds and `mSet 1 2` (call 3)
+    fails. The session stays incomplete, the parity store has the orphan entry `(1, 6)`, and the fault-free
+    delivery of block 3 would have completed the session (`Done 2`). -/
+example :
+    let V : Variant := { bitBeforeStore := false }
+    let P : Nat → Nat := fun m => 2 ^ (m - 2)
+    let s1 := (handleBlock V noFault P 8 8 { n := 2, bs := 1 } 2 5 1).1
+    let a := handleBlock V (faultAt 3) P 8 8 s1 3 6 1
+    a.2 = Res.err Err.matrix ∧ isComplete a.1 = false ∧ a.1.ps = [(1, 6), (0, 5)] ∧ a.1.used = 1 ∧
+      (handleBlock V noFault P 8 8 s1 3 6 1).2 = Res.done 2 ∧
+      (handleBlock V noFault P 8 8 a.1 3 6 1).2 = Res.done 2 := by decide
+
+/-! ## any number of episodes -/
+
+/-- A delivery sequence with fault episodes. `(i, none)`: block `i` is delivered without fault.
+    `(i, some k)`: block `i` is delivered while storage call number `k` (global counter `St.calls`) fails, and is
+    then delivered again without fault. The answer of the failed attempt is dropped; the answer of every other
+    delivery is recorded. The buffer length is the session's block size, as in `runBlocks`. -/
+def runEpisodes (V : Variant) (P : Nat → Nat) (vb nr : Nat) (blk : Nat → Nat) :
+    St → List (Nat × Option Nat) → St × List Res
+  | s, [] => (s, [])
+  | s, (i, none) :: ds =>
+    let (s1, r) := handleBlock V noFault P vb nr s i (blk i) s.bs
+    let (s2, rs) := runEpisodes V P vb nr blk s1 ds
+    (s2, r :: rs)
+  | s, (i, some k) :: ds =>
+    let s' := (handleBlock V (faultAt k) P vb nr s i (blk i) s.bs).1
+    let (s1, r) := handleBlock V noFault P vb nr s' i (blk i) s.bs
+    let (s2, rs) := runEpisodes V P vb nr blk s1 ds
+    (s2, r :: rs)
+
+/-- every tagged delivery of the sequence is a fault outside `finish`: along the run, the faulted attempt answers
+    an error and leaves the session incomplete -/
+def FaultsOutsideFinish (V : Variant) (P : Nat → Nat) (vb nr : Nat) (blk : Nat → Nat) :
+    St → List (Nat × Option Nat) → Prop
+  | _, [] => True
+  | s, (i, none) :: ds =>
+    FaultsOutsideFinish V P vb nr blk (handleBlock V noFault P vb nr s i (blk i) s.bs).1 ds
+  | s, (i, some k) :: ds =>
+    (∃ e, (handleBlock V (faultAt k) P vb nr s i (blk i) s.bs).2 = Res.err e) ∧
+    isComplete (handleBlock V (faultAt k) P vb nr s i (blk i) s.bs).1 = false ∧
+    FaultsOutsideFinish V P vb nr blk
+      (handleBlock V noFault P vb nr (handleBlock V (faultAt k) P vb nr s i (blk i) s.bs).1 i (blk i) s.bs).1 ds
+
+theorem fault_retry_seq_aux (V : Variant) (hV : V.bitBeforeStore = false) (P : Nat → Nat) (vb nr : Nat)
+    (blk : Nat → Nat) :
+    ∀ (ds : List (Nat × Option Nat)) (a b : St), Equiv a b → FaultsOutsideFinish V P vb nr blk a ds →
+      (runEpisodes V P vb nr blk a ds).2 = (runBlocks V noFault P vb nr blk b (ds.map Prod.fst)).2 ∧
+      Equiv (runEpisodes V P vb nr blk a ds).1 (runBlocks V noFault P vb nr blk b (ds.map Prod.fst)).1 := by
+  intro ds
+  induction ds with
+  | nil => intro a b hab _; exact ⟨rfl, hab⟩
+  | cons x ds ih =>
+    intro a b hab hok
+    obtain ⟨i, ok⟩ := x
+    have hbs : a.bs = b.bs := hab.2.1
+    cases ok with
+    | none =>
+      obtain ⟨hr, hs⟩ := handleBlock_congr V P vb nr i (blk i) a.bs hab
+      obtain ⟨ihr, ihs⟩ := ih _ _ hs hok
+      simp only [runEpisodes, runBlocks, List.map_cons, ← hbs]
+      exact ⟨by rw [hr, ihr], ihs⟩
+    | some k =>
+      obtain ⟨⟨e, herr⟩, hinc, hok'⟩ := hok
+      obtain ⟨hr1, hs1⟩ := fault_retry V hV P vb nr a i (blk i) a.bs k e herr hinc
+      obtain ⟨hr2, hs2⟩ := handleBlock_congr V P vb nr i (blk i) a.bs hab
+      obtain ⟨ihr, ihs⟩ := ih _ _ (hs1.trans hs2) hok'
+      simp only [runEpisodes, runBlocks, List.map_cons, ← hbs]
+      exact ⟨by rw [hr1, hr2, ihr], ihs⟩
+
+/-- **Any number of fault episodes.** A delivery sequence in which some deliveries suffer one failed storage call
+    outside `finish` and are then redelivered produces the same answers (those of the failed attempts aside) as the
+    fault-free run of the same blocks, and ends in a state with the same contents. -/
+theorem fault_retry_seq (V : Variant) (hV : V.bitBeforeStore = false) (P : Nat → Nat) (vb nr : Nat)
+    (blk : Nat → Nat) (s : St) (ds : List (Nat × Option Nat))
+    (h : FaultsOutsideFinish V P vb nr blk s ds) :
+    (runEpisodes V P vb nr blk s ds).2 = (runBlocks V noFault P vb nr blk s (ds.map Prod.fst)).2 ∧
+    Equiv (runEpisodes V P vb nr blk s ds).1 (runBlocks V noFault P vb nr blk s (ds.map Prod.fst)).1 :=
+  fault_retry_seq_aux V hV P vb nr blk ds s s (Equiv.refl s) h
+
+/-- non-vacuity: `n = 2`, blocks `x 0 = 5`, `x 1 = 6`, parity rows `P 2 = 01`, `P 3 = 10`. Deliveries: data block 0
+    with its store failing (call 0) and redelivered; parity block 3 with `mSet` failing after `pStore` succeeded
+    (call 3: the delicate case) and redelivered; parity block 3 again, fault free. Two episodes, three recorded
+    answers, the session ends `Done`. -/
+example :
+    let V : Variant := { bitBeforeStore := false }
+    let P : Nat → Nat := fun m => if m < 2 then 2 ^ m else 2 ^ (m - 2)
+    let blk : Nat → Nat := fun m => if m = 0 ∨ m = 2 then 5 else 6
+    let ds : List (Nat × Option Nat) := [(0, some 0), (3, some 3), (3, none)]
+    FaultsOutsideFinish V P 8 8 blk { n := 2, bs := 1 } ds ∧
+      (runEpisodes V P 8 8 blk { n := 2, bs := 1 } ds).2 = [Res.needMore, Res.done 2, Res.done 2] := by
+  intro V P blk ds
+  exact ⟨⟨⟨Err.data, by decide⟩, by decide, ⟨Err.matrix, by decide⟩, by decide, trivial⟩, by decide⟩
+
+/-! ## the two ways to lose a block -/
+
+/-- **The pinned store order loses the block.** Pinned order (`done` bit set before the store): the store of data
+    block 0 fails (storage call 0). On redelivery the block is taken for a duplicate: no storage call is made
+    (the log still holds only the failed attempt), the data store has no entry for block 0, yet block 0 is marked
+    done and the answer is `NeedMore`. -/
 theorem pinned_order_loses_block :
     let V : Variant := { bitBeforeStore := true }
     let P : Nat → Nat := fun m => 2 ^ m
     let s0 : St := { n := 2, bs := 1 }
-    let s1 := (handleBlock V (faultAt 0) P 8 8 s0 0 7 1).1          -- store of block 0 fails
-    let r := handleBlock V noFault P 8 8 s1 0 7 1                    -- redelivery
-    r.1.log.filter (fun c => c == Call.dStore 0 7) = [] ∧ r.1.done.testBit 0 = true   -- never stored, yet marked done
+    let a := handleBlock V (faultAt 0) P 8 8 s0 0 7 1                -- store of block 0 fails
+    let r := handleBlock V noFault P 8 8 a.1 0 7 1                   -- redelivery
+    a.2 = Res.err Err.data ∧ isComplete a.1 = false ∧
+    r.2 = Res.needMore ∧ r.1.log = [Call.dStore 0 7] ∧ r.1.calls = 1 ∧   -- only the failed attempt was ever made
+    r.1.ds.lookup 0 = none ∧ r.1.done.testBit 0 = true ∧                 -- never stored, yet marked done
+    (handleBlock V noFault P 8 8 s0 0 7 1).1.ds.lookup 0 = some 7 := by  -- what a fault-free delivery stores
+  decide
 
--- a fault inside `finish` is not recoverable: concrete witness, by `decide` (n = 2, l = 2: fail the last dStore of
--- finish; the redelivery answers Done although block index 1 was never stored).
-theorem fault_in_finish_witness : …
--/
+/-- **A fault inside `finish` is not recoverable by redelivery** (either store order). `n = 2`, both blocks unknown,
+    parity rows `P 2 = 01`, `P 3 = 10`, so `l = 2`. Block 2 is handled, then block 3 completes the elimination and
+    `finish` runs; its last `dStore` (rebuilt block 1, storage call 9) fails. The session is complete, so the
+    redelivery answers `Done 2` without touching storage, although block 1 was never stored (a fault-free delivery
+    stores `(1, 6)`). -/
+theorem fault_in_finish_witness :
+    let V : Variant := { bitBeforeStore := false }
+    let P : Nat → Nat := fun m => 2 ^ (m - 2)
+    let s0 : St := { n := 2, bs := 1 }
+    let s1 := (handleBlock V noFault P 8 8 s0 2 5 1).1
+    let a := handleBlock V (faultAt 9) P 8 8 s1 3 6 1                -- the last dStore of finish fails
+    let r := handleBlock V noFault P 8 8 a.1 3 6 1                   -- redelivery
+    a.2 = Res.err Err.data ∧ a.1.log.head? = some (Call.dStore 1 6) ∧ isComplete a.1 = true ∧
+    r.2 = Res.done 2 ∧ r.1.calls = a.1.calls ∧ r.1.ds.lookup 1 = none ∧
+    (handleBlock V noFault P 8 8 s1 3 6 1).2 = Res.done 2 ∧
+    (handleBlock V noFault P 8 8 s1 3 6 1).1.ds.lookup 1 = some 6 := by
+  decide
 
 end Fuota.C18
